@@ -30,6 +30,21 @@ func (g *Gen) loopVarNames(li *loopInfo) []string {
 						found = true
 					}
 				}
+				if !found && n[k+1:] == "rangeindex" {
+					// the loop is not (or no longer) a range loop: the name then stands for
+					// "index of the last completed iteration", niter - 1, which is what a
+					// range loop's hidden index is
+					dup := false
+					for _, a := range li.iterAlias {
+						if a == n[:k] {
+							dup = true
+						}
+					}
+					if !dup {
+						li.iterAlias = append(li.iterAlias, n[:k])
+					}
+					found = true
+				}
 				if !found {
 					li.bindErr = fmt.Sprintf("loop %d: the contract binds %s but the loop has no such variable (the loop's shape differs from the contract)", li.idx, n)
 				}
@@ -87,6 +102,9 @@ func (g *Gen) enterLoop(li *loopInfo, ins []inEdge, fwdPreds []*ssa.BasicBlock) 
 	// invariants phrased over it do not depend on how the loop counts
 	if _, clash := entryEnv["niter"]; !clash {
 		entryEnv["niter"] = &Val{T: "0", Ty: intType}
+	}
+	for _, a := range li.iterAlias {
+		entryEnv[a] = &Val{T: "(- 1)", Ty: intType}
 	}
 	// inv-entry obligations
 	if li.spec != nil {
@@ -212,6 +230,16 @@ func (g *Gen) enterLoop(li *loopInfo, ins []inEdge, fwdPreds []*ssa.BasicBlock) 
 			hdrEnv["niter"] = &Val{T: li.iterT, Ty: intType}
 		}
 		ctrs = append(ctrs, ctr{li.iterT, "0", 1})
+		for _, a := range li.iterAlias {
+			hdrEnv[a] = &Val{T: sx("-", li.iterT, "1"), Ty: intType}
+			if _, clash := g.env[a]; !clash || g.aliasEnv[a] {
+				g.env[a] = hdrEnv[a]
+				if g.aliasEnv == nil {
+					g.aliasEnv = map[string]bool{}
+				}
+				g.aliasEnv[a] = true
+			}
+		}
 		for pi, phi := range li.phis {
 			step, ok := counterStep(li, phi)
 			if !ok || step == 0 {
@@ -345,6 +373,9 @@ func (g *Gen) closeLoop(li *loopInfo, q *ssa.BasicBlock, si int) error {
 	}
 	if _, clash := env["niter"]; !clash && li.iterT != "" {
 		env["niter"] = &Val{T: sx("+", li.iterT, "1"), Ty: intType}
+	}
+	for _, a := range li.iterAlias {
+		env[a] = &Val{T: li.iterT, Ty: intType}
 	}
 	for pi, phi := range li.phis {
 		env[names[pi]] = g.val(phi.Edges[qi])
